@@ -1,6 +1,7 @@
 package props
 
 import (
+	"bytes"
 	"encoding/json"
 	"fmt"
 	"math/rand"
@@ -121,7 +122,7 @@ func runC13(r *core.Run) {
 				continue
 			}
 			for prop, want := range p.Expect {
-				if !xmpEq(got[prop], want) {
+				if !xmpEq(prop, got[prop], want) {
 					form := "array"
 					for _, it := range c.Items {
 						if it.P == prop {
@@ -147,7 +148,7 @@ func runC13(r *core.Run) {
 		} else {
 			// beyond the guarantee: the value or an error, never a wrong value
 			for prop, want := range p.Expect {
-				if g, ok := got[prop]; ok && !xmpIsZero(g) && !xmpEq(g, want) {
+				if g, ok := got[prop]; ok && !xmpIsZero(g) && !xmpEq(prop, g, want) {
 					r.Violate("xmp:wrong-value-beyond-window:"+prop, fmt.Sprintf("%s: token longer than the guaranteed window reported as a WRONG value (%d bytes instead of %d)", prop, len(fmt.Sprint(g)), len(fmt.Sprint(want))), replayOf(op, o, desc))
 				}
 			}
@@ -174,6 +175,7 @@ func runC13(r *core.Run) {
 		}
 	}
 	r.Extra["form_pairs_compared"] = pairs
+	runXmpRoot(r, rng, cases)
 	r.Extra["packets"] = len(cases)
 	r.Assumptions = append(r.Assumptions,
 		"white space between tokens is SP / LF (and their runs); white space around '=' and before '>' is not generated (the reader's own unit tests define `<hello >` as an error)",
@@ -214,10 +216,13 @@ func xmpIsZero(v interface{}) bool {
 	return false
 }
 
-func xmpEq(got, want interface{}) bool {
+func xmpEq(prop string, got, want interface{}) bool {
 	switch w := want.(type) {
 	case float64:
 		g, ok := got.(float64)
+		if prop == "exif:GPSLatitude" || prop == "exif:GPSLongitude" {
+			return ok && g == w // float64 fields: the written decimal parses to exactly one double
+		}
 		return ok && numEq("ExposureTime", g, w)
 	case string:
 		g, ok := got.(string)
@@ -235,4 +240,141 @@ func xmpEq(got, want interface{}) bool {
 		return true
 	}
 	return false
+}
+
+type xmpRootCase struct {
+	Runs []struct {
+		N   int    `json:"n"`
+		Sep string `json:"sep"`
+	} `json:"runs"`
+	Root   int `json:"root"`
+	Slices int `json:"slices"`
+	Fulls  int `json:"fulls"`
+}
+
+// xmpJunk concretises the runs in front of the root element: '<'-free stretches and the '<' kinds of XmpRoot.
+func xmpJunk(c *xmpRootCase, fill string) []byte {
+	var b []byte
+	for _, run := range c.Runs {
+		for i := 0; i < run.N; i++ {
+			b = append(b, fill[i%len(fill)])
+		}
+		switch run.Sep {
+		case "lt":
+			b = append(b, "<a>"...)
+		case "decoy":
+			b = append(b, "<x:xmpmetb "...)
+		case "pi":
+			pi := `<?xpacket begin="" id="W5M0MpCehiHzreSzNTczkc9d"?>`
+			for len(pi) < 54 {
+				pi += "\n"
+			}
+			b = append(b, pi...)
+		}
+	}
+	return b
+}
+
+// runXmpRoot: the root-search model XmpRoot (bytes before the root element are skipped) and its replay.
+func runXmpRoot(r *core.Run, rng *rand.Rand, packets []xmpCase) {
+	d, err := core.RunTLC(core.TLCOpts{Module: "XmpRoot", Cfg: "XmpRoot.fullfails.cfg", Workers: 2, Timeout: 10 * time.Minute})
+	if err != nil || d.Violated == "" {
+		r.Machinery("XmpRoot (fullfails deviation) was expected to violate NoErr in the model: %v %s", err, tail(d))
+		d.Cleanup()
+		return
+	}
+	r.Extra["deviation_fullfails"] = "violates " + d.Violated
+	d.Cleanup()
+	cfg := "XmpRoot.quick.cfg"
+	if r.Tier == "thorough" {
+		cfg = "XmpRoot.thorough.cfg"
+	}
+	t, err := core.RunTLC(core.TLCOpts{Module: "XmpRoot", Cfg: cfg, Workers: 4, Timeout: 20 * time.Minute})
+	defer t.Cleanup()
+	if err != nil || !t.OK {
+		r.Machinery("TLC run on XmpRoot failed: %v %s", err, tail(t))
+		return
+	}
+	r.AddTLC("XmpRoot", t)
+	var cases []xmpRootCase
+	if _, err = core.ReadEmitted(filepath.Join(t.Dir, "emit.ndjson"), func(raw json.RawMessage) error {
+		var c xmpRootCase
+		if e := json.Unmarshal(raw, &c); e != nil {
+			return e
+		}
+		cases = append(cases, c)
+		return nil
+	}); err != nil || len(cases) == 0 {
+		r.Machinery("reading emitted XmpRoot cases: %v (n=%d)", err, len(cases))
+		return
+	}
+	sort.SliceStable(cases, func(i, j int) bool {
+		a, _ := json.Marshal(cases[i])
+		b, _ := json.Marshal(cases[j])
+		return string(a) < string(b)
+	})
+	// a few short packets within the guarantee carry the junk
+	var carriers []*xmpCase
+	for i := range packets {
+		c := &packets[i]
+		if c.Err == 0 && len(c.Items) <= 2 && (len(c.Items) == 0 || c.Items[0].V <= 128) {
+			carriers = append(carriers, c)
+		}
+	}
+	if len(carriers) == 0 {
+		r.Machinery("no carrier packet for the XmpRoot cases")
+		return
+	}
+	fills := []string{" ", "\x00", "ab\n", "x>/=\"'"}
+	var ops []core.Op
+	var pk []gen.XMPPacket
+	for i := range cases {
+		c := carriers[rng.Intn(len(carriers))]
+		p := gen.BuildXMP(c.Items, rng, 0, i%2 == 0)
+		at := bytes.Index(p.Data, []byte("<x:xmpmeta"))
+		if at < 0 {
+			r.Machinery("generated packet has no root element")
+			return
+		}
+		junk := xmpJunk(&cases[i], fills[i%len(fills)])
+		if len(junk) != cases[i].Root {
+			r.Machinery("XmpRoot case %d: junk is %d bytes, the model places the root at %d", i, len(junk), cases[i].Root)
+			return
+		}
+		p.Data = append(junk, p.Data[at:]...)
+		a, _ := json.Marshal(map[string]interface{}{"small": i%5 == 4})
+		ops = append(ops, core.Op{ID: len(ops), Kind: "xmpparse", Data: p.Data, Cut: -1, Args: a})
+		pk = append(pk, p)
+	}
+	obs, err := core.RunOps(ops, core.WorkerOpts{})
+	if err != nil {
+		r.Machinery("worker: %v", err)
+		return
+	}
+	for i := range obs {
+		o, op, c, p := &obs[i], &ops[i], &cases[i], &pk[i]
+		cls := "within-buffer"
+		if c.Fulls > 0 {
+			cls = "beyond-buffer"
+		}
+		desc := map[string]interface{}{"runs": c.Runs, "root_at": c.Root, "model_slices": c.Slices, "model_fulls": c.Fulls}
+		if o.Bad() {
+			r.Violate("xmp:root:"+o.BadKind()+"@"+o.Site, fmt.Sprintf("ParseXmp %s on a packet preceded by %d bytes: %s%s", o.BadKind(), c.Root, o.Panic, o.Crash), replayOf(op, o, desc))
+			continue
+		}
+		r.Cases++
+		if o.Err != "" {
+			r.Violate("xmp:root:error:"+cls, fmt.Sprintf("packet preceded by %d bytes (%d '<' before the root, longest '<'-free stretch class %s): error %s", c.Root, len(c.Runs)-1, cls, o.Err), replayOf(op, o, desc))
+			continue
+		}
+		var got map[string]interface{}
+		json.Unmarshal(o.R, &got)
+		for prop, want := range p.Expect {
+			if !xmpEq(prop, got[prop], want) {
+				r.Violate("xmp:root:value:"+cls, fmt.Sprintf("packet preceded by %d bytes: %s reported %v, written %v", c.Root, prop, trunc(got[prop]), trunc(want)), replayOf(op, o, desc))
+				break
+			}
+		}
+	}
+	r.Extra["root_search_cases"] = len(cases)
 }
